@@ -15,9 +15,9 @@ def main():
         return 2
     print(f"harness built in {t}s")
     bad = 0
-    for f in sorted(glob.glob(os.path.join(common.SPEC, "*.tla"))):
+    for f in sorted(glob.glob(os.path.join(common.SPEC, "*.tla")) + glob.glob(os.path.join(common.SPEC, "rules", "*.tla"))):
         p = subprocess.run(["java", "-cp", common.tlc._classpath(), "tla2sany.SANY", f],
-                           stdout=subprocess.PIPE, stderr=subprocess.STDOUT, text=True, cwd=common.SPEC)
+                           stdout=subprocess.PIPE, stderr=subprocess.STDOUT, text=True, cwd=os.path.dirname(f))
         ok = p.returncode == 0 and "Semantic errors" not in p.stdout and "***Parse Error***" not in p.stdout
         print(("ok   " if ok else "FAIL ") + os.path.basename(f))
         if not ok:
